@@ -373,3 +373,30 @@ def validator_expr(v):
                     walk('%s._tagmap[%r]' % (e, tag), tv)
         _state['vexpr'] = table
     return _state['vexpr'].get(id(v))
+
+
+def compile_package(specs, tag):
+    """compile {namespace: text} with the tree's frontend + python_types into a package of its own
+    (used for pairs of spec versions); returns {namespace: module}.  Cached per tag."""
+    key = 'pkg:' + tag
+    if key in _state:
+        return _state[key]
+    try:
+        from stone.frontend.frontend import specs_to_ir
+        from stone.compiler import Compiler
+        import stone.backends.python_types as backend
+        d = tempfile.mkdtemp(prefix='verif_pkg_')
+        atexit.register(shutil.rmtree, d, True)
+        pkg = 'vpkg_%s_%d' % (tag, os.getpid())
+        out = os.path.join(d, pkg)
+        os.makedirs(out)
+        open(os.path.join(out, '__init__.py'), 'w').close()
+        api = specs_to_ir([(name + '.stone', text) for name, text in sorted(specs.items())])
+        Compiler(api, backend, ['-p', pkg], out, clean_build=False).build()
+        sys.path.insert(0, d)
+        mods = dict((name, importlib.import_module('%s.%s' % (pkg, name))) for name in sorted(specs))
+    except Exception:
+        import traceback
+        raise CorpusBuildError(traceback.format_exc()[-1500:])
+    _state[key] = mods
+    return mods
